@@ -225,3 +225,58 @@ def step_jobs(tier, checks, kpool, vpool, seed, configs, select=None, pct=900):
     out.append({"module": "vf.props.hexstep", "fn": "r_step", "cfg": dict(base, mi=min(3, nfam - 1), prune=configs[0][0], mode=configs[0][1]),
                 "pct": 300, "ppt": 30, "kind": "reach"})
     return out
+
+
+# ---------------------------------------------------------------------------------------------
+# symbolic value CONTENT (thorough tiers of C02 / C06): the value of one set() is a symbolic byte string of a
+# fixed length that flows through the real insertion code and real pyrlp; keccak is replaced on both sides
+# (implementation and oracle) by an injective interning function, so root equality <=> structural equality.
+def h_symval(ki: int, v: bytes) -> bool:
+    """
+    pre: 0 <= ki < len(KEYS) and len(v) == CFG["vlen"]
+    post: _
+    """
+    ki = pick(ki, len(KEYS))
+    stubs.reset_caches()
+    mh = stubs.install_model_hash()
+    try:
+        prune = CFG["prune"]
+        with notrace():
+            state = hc.canonical_state(MODEL)            # concrete, under the model hash
+            t, db = hc.trie_from_state(state, prune)
+        key = KEYS[ki]
+        try:
+            t.set(key, v)
+        except Exception as e:
+            return _fail(f"set raised {type(e).__name__}: {e}")
+        m2 = dict(MODEL)
+        m2[key] = v
+        root2 = mpt.root_of(m2)
+        if t.root_hash != root2:
+            return _fail("root hash differs from the Yellow Paper root for a symbolic value content")
+        if t.get(key) != v:
+            return _fail("get after set of a symbolic value returned something else")
+        if prune and "exact" in CFG["checks"]:
+            db2 = mpt.db_of(m2)
+            if set(db) != set(db2):
+                return _fail("pruning db is not exactly the live node set (symbolic value content)")
+        COUNTERS["paths"] += 1
+        COUNTERS["nontrivial"] += 1
+        return True
+    finally:
+        stubs.uninstall_model_hash()
+
+
+WARM["h_symval"] = lambda cfg: [(1, b"\x7f" * cfg["vlen"]), (2, b"\x80" * cfg["vlen"]), (0, hc.LONG_A[:cfg["vlen"]])]
+
+
+def symval_jobs(tier, checks, seed, prunes):
+    base = {"tier": "quick", "kpool": "K7", "vpool": "V4", "seed": seed, "checks": checks, "mode": "direct"}
+    fam = family_for(base)
+    idx = [i for i, m in enumerate(fam) if len(m) >= 2][::9]
+    out = []
+    for mi in idx:
+        for prune in prunes:
+            for vlen in (1, 29, 33):
+                out.append({"module": "vf.props.hexstep", "fn": "h_symval", "cfg": dict(base, mi=mi, prune=prune, vlen=vlen), "pct": 2400, "ppt": 120})
+    return out
